@@ -241,6 +241,8 @@ def explore(funcs, index, enums, text):
            "Error::kind": e_kind,
            "<ErrorKind as PartialEq>::eq": lambda m, a: _vname(deref(a[0])) == _vname(deref(a[1])),
            "Path::symlink_metadata": symlink_metadata,
+           # Path::is_dir follows links: a directory, or a link that leads to one (the link closing a cycle points at an ancestor directory)
+           "Path::is_dir": lambda m, a: ({q: k for q, _d, k in TREE}.get(text_of(m, a[0])) in ("dir", "unreadable", "loop", "dirlink")) and not (text_of(m, a[0]) == "r" and state.get("root_dang")),
            "Option::as_deref": lambda m, a: deref(a[0]),
            "<Option<i32> as PartialEq>::eq": lambda m, a: (deref(a[0]).variant == deref(a[1]).variant and (deref(a[0]).variant == "None" or deref(a[0]).fields[0] == deref(a[1]).fields[0])),
            "<impl Into<PathBuf> as Into>::into": lambda m, a: PStr(text_of(m, a[0])), "<Path as ToOwned>::to_owned": lambda m, a: PStr(text_of(m, a[0])),
@@ -740,17 +742,20 @@ def _explore_delete(funcs, index, enums, text, follow_mode, prune=False):
     return res
 
 
-SORT_NAMES = [b"a", b"B", b"b", b"ab", b"a b", b"-", b".x", b"A", b"\xc3\xa9", b"\xff", b"a\n", b"10", b"9"]
+SORT_NAMES = [b"a", b"B", b"b", b"ab", b"a b", b"-", b".x", b"A", b"\xc3\xa9", b"\xff", b"a\n", b"10", b"9", b"\x80"]      # 0x80 alone is not UTF-8 and sorts before C3 A9 byte-wise, after it once replaced by U+FFFD
 
 
 def explore_sorted(funcs, index, enums, text):
     """C03 (-sorted): the comparator process_dir hands to WalkDir::sort_by, from MIR, on every ordered pair of names"""
     res = {"kind": "sorted", "paths": 0, "checks": 0, "violations": [], "unsupported": {}, "samples": []}
     cands = [f for k, f in index.items() if k.startswith("{closure@src/find/mod.rs") and len(f.params) == 3 and all("DirEntry" in p[1] for p in f.params[1:])]
-    if len(cands) != 1:
+    keyfns = [f for k, f in index.items() if k.startswith("{closure@src/find/mod.rs") and len(f.params) == 2 and "DirEntry" in f.params[1][1]]
+    if len(cands) != 1 and len(keyfns) != 1:
         res["unsupported"]["comparator closure of sort_by not found (%d candidates)" % len(cands)] = 1
+        res.update(wall_s=0.0, solver_calls=0, functions_executed=[])
         return res
-    cmp_fn = cands[0]
+    by_key = len(cands) != 1            # WalkDir::sort_by_key: the order is that of the keys the closure extracts
+    cmp_fn = keyfns[0] if by_key else cands[0]
     ia, ib = z3.Int("name_a"), z3.Int("name_b")
 
     def file_name(m, a):
@@ -759,7 +764,10 @@ def explore_sorted(funcs, index, enums, text):
     def os_cmp(m, a):
         x, y = deref(a[0]).fields[0], deref(a[1]).fields[0]
         return Enum("Ordering", "Less" if x < y else "Greater" if x > y else "Equal", [])
-    nat = {"DirEntry::file_name": file_name, "<OsStr as Ord>::cmp": os_cmp, "<&OsStr as Ord>::cmp": os_cmp, "<OsStr as PartialOrd>::partial_cmp": lambda m, a: Some(os_cmp(m, a))}
+    lossy = lambda m, a: Struct("LossyV", [deref(a[0]).fields[0].decode("utf-8", errors="replace").encode()])       # std: each invalid sequence -> U+FFFD; a String orders by its UTF-8 bytes
+    same = lambda m, a: deref(a[0])
+    nat = {"OsStr::to_string_lossy": lossy, "Cow::into_owned": same, "<Cow as Deref>::deref": same, "OsStr::to_os_string": same, "OsStr::to_owned": same, "<OsStr as ToOwned>::to_owned": same,
+           "DirEntry::file_name": file_name, "<OsStr as Ord>::cmp": os_cmp, "<&OsStr as Ord>::cmp": os_cmp, "<OsStr as PartialOrd>::partial_cmp": lambda m, a: Some(os_cmp(m, a))}
     m = Machine(funcs, index, enums, models, natives=nat)
     m.base_constraints = [ia >= 0, ia < len(SORT_NAMES), ib >= 0, ib < len(SORT_NAMES)]
     m.pending = [[]]
@@ -770,7 +778,16 @@ def explore_sorted(funcs, index, enums, text):
         try:
             a = m.decide_int(ia, list(range(len(SORT_NAMES) - 1))); a = len(SORT_NAMES) - 1 if a is None else a
             b = m.decide_int(ib, list(range(len(SORT_NAMES) - 1))); b = len(SORT_NAMES) - 1 if b is None else b
-            r = m.run(cmp_fn, [Ptr([Struct("Closure", [])], 0), Ptr([Struct("DirEntryV", [SORT_NAMES[a]])], 0), Ptr([Struct("DirEntryV", [SORT_NAMES[b]])], 0)])
+            if by_key:
+                ks = []
+                for nm in (SORT_NAMES[a], SORT_NAMES[b]):
+                    kv = deref(m.run(cmp_fn, [Ptr([Struct("Closure", [])], 0), Ptr([Struct("DirEntryV", [nm])], 0)]))
+                    if not (isinstance(kv, Struct) and kv.ty in ("OsStrV", "LossyV") and isinstance(kv.fields[0], bytes)):
+                        raise Unsupported("sort key %r" % (kv,))
+                    ks.append(kv.fields[0])
+                r = Enum("Ordering", "Less" if ks[0] < ks[1] else "Greater" if ks[0] > ks[1] else "Equal", [])
+            else:
+                r = m.run(cmp_fn, [Ptr([Struct("Closure", [])], 0), Ptr([Struct("DirEntryV", [SORT_NAMES[a]])], 0), Ptr([Struct("DirEntryV", [SORT_NAMES[b]])], 0)])
         except RustPanic as e:
             res["violations"].append({"what": "panic: " + str(e)[:80]}); res["paths"] += 1
             continue
